@@ -159,7 +159,17 @@ impl DerefMut for Dict {
 #[allow(clippy::non_canonical_partial_ord_impl)]
 impl PartialOrd for Dict {
     fn partial_cmp(&self, other: &Self) -> Option<std::cmp::Ordering> {
-        self.value.partial_cmp(&other.value)
+        // Same criteria as `cmp` (keys first, then values), but partial on the values.
+        if self.is_empty() && other.is_empty() {
+            Some(std::cmp::Ordering::Equal)
+        } else {
+            let keys_cmp = self.value.keys().cmp(other.value.keys());
+            if keys_cmp == std::cmp::Ordering::Equal {
+                self.value.values().partial_cmp(other.value.values())
+            } else {
+                Some(keys_cmp)
+            }
+        }
     }
 }
 
